@@ -508,6 +508,28 @@ def _map_cells(a, fn, kind):
     return SymNum(fn(lift(a)), kind or symx.kind_of(a), True)
 
 
+def np_isclose(a, b, rtol=1e-05, atol=1e-08, equal_nan=False):
+    """|a - b| <= atol + rtol * |b| (numpy's definition), cell-wise"""
+    rt, at = symx.frac(rtol), symx.frac(atol)
+
+    def close(x, y):
+        return _absterm(x - y) <= at + rt * _absterm(y)
+    if isinstance(a, ndarray) or isinstance(b, ndarray):
+        base = a if isinstance(a, ndarray) else b
+        ad = a.data if isinstance(a, MaskedArray) else a
+        bd = b.data if isinstance(b, MaskedArray) else b
+        if not isinstance(ad, ndarray):
+            ad = S._full_like(base, ad)
+        x, y, shape, _ = ndarray._operands(ad, bd)
+        return _new([close(p, q) for p, q in zip(x, y)], shape, 'b')
+    return SymBool(close(lift(a), lift(b)))
+
+
+def np_allclose(a, b, rtol=1e-05, atol=1e-08):
+    r = np_isclose(a, b, rtol, atol)
+    return r.all() if isinstance(r, ndarray) else r
+
+
 class _Linalg(object):
     @staticmethod
     def norm(x, ord=None, axis=None):
@@ -688,6 +710,7 @@ def apply():
     N.equal, N.not_equal = _binary(operator.eq, 'equal'), _binary(operator.ne, 'not_equal')
     N.isnan = N.isinf = N.isneginf = N.isposinf = np_isnan
     N.isfinite = np_isfinite
+    N.isclose, N.allclose = np_isclose, np_allclose
     N.errstate = errstate
     N.seterr = lambda **kw: {}
     N.any, N.all = np_any, np_all
